@@ -23,6 +23,7 @@ def GoodAt (p : Savepoint) (t : PState) : Prop := t.pt = p ∧ t.rstack.head? = 
 /-- the ORDINARY parser (generated without `-support-left-recursion`, run without `Memoize`) evaluates `x` at `p`,
     inside rule `A`, to success flag `ok`, value `v` and end position `q` — from EVERY state at that position -/
 def Loc (x : Expr) (p : Savepoint) (ok : Bool) (v : Val) (q : Savepoint) : Prop :=
+  Reach E.input p ∧ Reach E.input q ∧
   ∃ F, ∀ t, GoodAt A p t → ∃ t', parseExpr (noLR E) F x t = .done v ok t' ∧ t'.pt = q ∧ t'.rstack = t.rstack
 
 /-- a sequence of operands from `p`: the values of the items and the end position; `false` = some item fails -/
@@ -124,7 +125,7 @@ theorem op_sat (m : List ((Nat × MemoKey) × MemoVal)) (f : Nat) (x : Expr) (hl
     simp only [Outcome.Sat] at ha hfr
     have hi' : FInv E X' := hX.finv.of_framed hfr
     refine ⟨?_, ⟨hi', by rw [hfr.stk.rstack]; exact hX.head, ha.1⟩, hfr.stk.rstack, ha.2, fun hb => ?_⟩
-    · refine ⟨f, fun t ht => ?_⟩
+    · refine ⟨hX.finv.2.1, hi'.2.1, f, fun t ht => ?_⟩
       have hcfg : MemoCfg (dropLR E) := ⟨H.noopt, rfl, H.cfg.nobudget⟩
       have hp : PureCode (dropLR E) isPred := ⟨H.pure.noargs, H.pure.act, H.pure.pred⟩
       have hl := loc hcfg hp (own := own) (node := node) H.okG t.errs X.errs f x t X A.name A
@@ -361,8 +362,8 @@ theorem alts_sat (m : List ((Nat × MemoKey) × MemoVal)) (f : Nat) (ln cl : Nat
 omit H in
 theorem Loc.det {x : Expr} {p q q' : Savepoint} {ok ok' : Bool} {v v' : Val} (h1 : Loc E A x p ok v q)
     (h2 : Loc E A x p ok' v' q') : ok = ok' ∧ v = v' ∧ q = q' := by
-  obtain ⟨F1, h1⟩ := h1
-  obtain ⟨F2, h2⟩ := h2
+  obtain ⟨_, _, F1, h1⟩ := h1
+  obtain ⟨_, _, F2, h2⟩ := h2
   have hg : GoodAt A p { initState E with pt := p, rstack := [A] } := ⟨rfl, rfl⟩
   obtain ⟨t1, e1, rfl, _⟩ := h1 _ hg
   obtain ⟨t2, e2, rfl, _⟩ := h2 _ hg
